@@ -197,6 +197,9 @@ def fit_cases():
         for form in FORMS[1:]:
             for kind in ("linear", "quadratic"):
                 cases.append({"set": name, "perm": ident, "kind": kind, "form": form})
+            # general_fitting reads the stored points, the other two the accumulated sums: both per form
+            for names in (["x2", "x", "one"], ["x", "one"]):
+                cases.append({"set": name, "perm": ident, "kind": "general", "basis": names, "form": form})
         for kind, names in (("general", ["x2", "x", "one"]), ("general", ["x", "one"]),
                             ("general", ["x"]), ("general", ["one"])):
             for perm in perms[:6]:
